@@ -567,6 +567,35 @@ def install(R):
     R.pow_ = pow_
 
     R.fns["sklearn.clone"] = R.fns["sklearn.base.clone"]
+    def _iter_conc(E, it):
+        return list(E.iterate_concrete(it))
+    import itertools as _it
+    from .engine import GenResult as _Gen
+    R.fns["itertools.combinations"] = lambda E, it, r: _Gen([tuple(c) for c in _it.combinations(_iter_conc(E, it), r)])
+    R.fns["itertools.combinations_with_replacement"] = lambda E, it, r: _Gen([tuple(c) for c in _it.combinations_with_replacement(_iter_conc(E, it), r)])
+    R.fns["itertools.chain.from_iterable"] = lambda E, its: _Gen([x for it in E.iterate_concrete(its) for x in E.iterate_concrete(it)])
+    R.fns["scipy.sparse.isspmatrix"] = lambda E, X: False if isinstance(X, NdArr) else (_ for _ in ()).throw(Unsupported("isspmatrix"))
+    R.fns["sklearn.utils.check_array"] = lambda E, X, **kw: X
+
+    def np_multiply(E, A, B, out=None, **kw):
+        """numpy.multiply(A, B, out=C) with a one-column B broadcast over the columns of A"""
+        from .npmodel import shapes_equal, arr_map
+        if out is None:
+            return arr_map(E, lambda x, y: x * y, [A, B], "real")
+        if not (isinstance(A, NdArr) and isinstance(B, NdArr) and isinstance(out, NdArr) and A.ndim == 2 and B.ndim == 2 and out.ndim == 2):
+            raise Unsupported("numpy.multiply(out=) on these operands")
+        shapes_equal(E, A.shape, out.shape, None, "multiply-out-shape")
+        shapes_equal(E, (A.shape[0],), (B.shape[0],), None, "multiply-rows")
+        if not (isinstance(B.shape[1], int) and B.shape[1] == 1):
+            shapes_equal(E, A.shape, B.shape, None, "multiply-shape")
+            fa, fb = A.snapshot(), B.snapshot()
+            out.assign_fn(lambda r, c: fa.get(r, c) * fb.get(r, c))
+        else:
+            fa, fb = A.snapshot(), B.snapshot()
+            out.assign_fn(lambda r, c: fa.get(r, c) * fb.get(r, 0))
+        E.note_write(out)
+        return out
+    R.fns["numpy.multiply"] = np_multiply
 
     # ------------------------------------------------------------------ sklearn.tree._tree.Tree being built node by node
     leafidF = z3.Function("leafid", z3.IntSort(), z3.RealSort(), z3.IntSort())
@@ -671,12 +700,25 @@ def install(R):
 
     # ------------------------------------------------------------------ integer-array indexing
     def fancy_get(E, arr, idx, node):
-        if isinstance(idx, tuple):
+        if isinstance(idx, tuple) and not (len(idx) == 2 and isinstance(idx[1], (tuple, list))):
             if len(idx) == 2 and isinstance(idx[0], NdArr) and isinstance(idx[1], slice) and \
                     idx[1].start is None and idx[1].stop is None and idx[1].step is None:
                 idx = idx[0]
             else:
                 raise Unsupported("fancy index %r" % (idx,))
+        if isinstance(idx, tuple) and len(idx) == 2 and isinstance(idx[0], slice) and idx[0] == slice(None, None, None) \
+                and isinstance(idx[1], (tuple, list)) and all(isinstance(c, int) for c in idx[1]) and arr.ndim == 2:
+            cols = list(idx[1])
+            from .pymodel import norm_index
+            cols = [norm_index(E, c, arr.shape[1], node) for c in cols]
+            fa = arr.snapshot()
+
+            def pick(r, c):
+                v = fa.get(r, cols[-1]) if cols else z3.RealVal(0)
+                for k in range(len(cols) - 2, -1, -1):
+                    v = z3.If(c == k, fa.get(r, cols[k]), v)
+                return v
+            return NdArr.from_fn("cols", (arr.shape[0], len(cols)), arr.kind, pick)
         if isinstance(idx, NdArr) and idx.kind == "int" and idx.ndim == 1:
             n = z(arr.shape[0])
             fi = idx.snapshot()
